@@ -67,6 +67,9 @@ func runC12(c *core.Ctx) {
 		return
 	}
 	defer pool.Close()
+	// in the background: a history that arrives in two parts with half a minute of silence in between is the whole history
+	waitPaused := pausedPipes(c, map[string]string{"reg": "log", "bal": "log", "report totals": "log"})
+	defer waitPaused()
 	perDay := [][]string{{"reg"}, {"reg", "--internal-template-name", "left-aligned"}, {"reg", "--use-old-reg-reporter"}, {"reg", "--totals-only"}, {"csv", "log"}, {"print"}, {"reg", "-f", "P"}, {"reg", "-s", "X"}, {"reg", "-s", "X", "--csv"}, {"reg", "--shorten"}, {"reg", "--shorten", "--internal-template-name", "left-aligned"}, {"reg", "-f", "."}}
 	// bal --collapse is not composed: which segments it joins depends on the whole tree, so its row set is
 	// not additive over parts (a false alarm of an earlier version of this check, see DESIGN 10.3); C03 covers it
@@ -142,6 +145,20 @@ func runC12(c *core.Ctx) {
 			w.Log[a].Ents = append(w.Log[a].Ents, gen.Ent{Name: n1, Val: gen.N(fmt.Sprintf("%d%d", d2, q2))})
 			w.Log[b].Ents = append(w.Log[b].Ents, gen.Ent{Name: n2, Val: gen.N(fmt.Sprint(q2))})
 			c.Count("histories_with_digit_suffixed_twins", 1)
+		}
+		if i%97 == 13 && len(w.Log) >= 2 {
+			// a history with more different foods than any table a report might pre-size (1300 names), the early ones
+			// logged again in later blocks
+			w.Log[0].Ents = nil
+			for k := 0; k < 1300; k++ {
+				w.Log[0].Ents = append(w.Log[0].Ents, gen.Ent{Name: fmt.Sprintf("item/%04d", k), Val: gen.Half(2)})
+			}
+			for di := 1; di < len(w.Log); di++ {
+				for k := 0; k < 6; k++ {
+					w.Log[di].Ents = append(w.Log[di].Ents, gen.Ent{Name: fmt.Sprintf("item/%04d", (k*211+di*7)%1300), Val: gen.Half(3 + k)})
+				}
+			}
+			c.Count("histories_with_1300_different_foods", 1)
 		}
 		X := w.Basics[r.Intn(len(w.Basics))]
 		P := "a"
